@@ -180,6 +180,42 @@ def run_schedule(job):
     return dict(results=results, hits=[hits.get(i, 'none') for i in range(n)], failed=enf.failed, hung=hung)
 
 
+def run_free(job):
+    """Mode C: free-running threads (no enforcement), all released by a barrier, tiny switch interval.
+    Correct code gives bit-identical results under every schedule, so this can only miss, never
+    raise a false alarm."""
+    vlib.use_repo()
+    import sys
+    from numdifftools import finite_difference as fdm
+    cfgs, rounds = job
+    n = len(cfgs)
+    old = sys.getswitchinterval()
+    sys.setswitchinterval(1e-6)
+    bad = []
+    try:
+        for rd in range(rounds):
+            fdm.FD_RULES.clear()
+            objs = [build(tuple(c), FUNS[c[0]]) for c in cfgs]
+            res = [None] * n
+            bar = threading.Barrier(n)
+
+            def body(i):
+                bar.wait()
+                try:
+                    res[i] = pack(objs[i](xof(cfgs[i])))
+                except Exception as ex:
+                    res[i] = pack(ex)
+            ths = [threading.Thread(target=body, args=(i,)) for i in range(n)]
+            for t in ths:
+                t.start()
+            for t in ths:
+                t.join(60)
+            bad.append(res)
+    finally:
+        sys.setswitchinterval(old)
+    return bad
+
+
 CFG = """CONSTANTS
   NT = %d
   EmitOn = TRUE
@@ -219,8 +255,13 @@ def run(tier, rep, seed):
     for k in range(60 if quick else 600):
         nt = rnd.choice([2, 3, 4, 8, 16])
         dense.append(([rnd.choice(pool) for _ in range(nt)], None, None, seed + 100000 + k))
+    free = []
+    for k in range(8 if quick else 40):
+        c0 = rnd.choice(pool)
+        # several threads asking for the SAME fresh cache key at the same moment, plus others
+        free.append(([c0] * rnd.choice([4, 8]) + [rnd.choice(pool) for _ in range(4)], 6 if quick else 15))
     import c09
-    allcfgs = sorted({tuple(c) for j in jobs + dense for c in j[0]})
+    allcfgs = sorted({tuple(c) for j in jobs + dense for c in j[0]} | {tuple(c) for j in free for c in j[0]})
     refs = dict(c09.fresh_map(reference, allcfgs))
     outs = vlib.pool_map(run_schedule, jobs + dense, chunksize=4)
     ncalls = 0
@@ -240,4 +281,17 @@ def run(tier, rep, seed):
         if seen is not None and o['hits'] != list(seen):
             rep.violation('cache-trace:' + mode, dict(cfgs=cfgs, sched=sched, spec=list(seen), impl=o['hits']),
                           'schedule %s: cache lookups observed %s, specification %s' % (sched, o['hits'], list(seen)))
-    return dict(schedules=len(jobs) + len(dense), tlc_schedules=len(jobs), dense_schedules=len(dense), thread_calls=ncalls, tlc=tl)
+    fouts = vlib.pool_map(run_free, free, chunksize=1)
+    nfree = 0
+    for (cfgs, rounds), rr in zip(free, fouts):
+        for res in rr:
+            nfree += 1
+            for i, c in enumerate(cfgs):
+                ncalls += 1
+                if res[i] != refs[tuple(c)]:
+                    rep.violation('thread-result:free-running', dict(cfgs=cfgs, thread=i + 1), 'thread %d (%s) of %d free-running threads (same fresh cache key requested simultaneously) returns a different value/record than alone in a fresh interpreter' % (i + 1, c, len(cfgs)))
+                    break
+            else:
+                continue
+            break
+    return dict(free_running_rounds=nfree, schedules=len(jobs) + len(dense), tlc_schedules=len(jobs), dense_schedules=len(dense), thread_calls=ncalls, tlc=tl)
